@@ -97,6 +97,9 @@ func cmdCheck(args []string) {
 	if only != "" || os.Getenv("VSYM_REPO") != "" {
 		evidenceDir = filepath.Join(verifDir, ".work", "evidence-trial")
 	}
+	if d := os.Getenv("VSYM_EVIDENCE_DIR"); d != "" {
+		evidenceDir = d // development runs that must not replace the committed evidence
+	}
 	var insts []*jobInst
 	for _, j := range jobs {
 		if len(j.Cases) == 0 {
@@ -133,6 +136,9 @@ func cmdCheck(args []string) {
 	}
 	if w := os.Getenv("VSYM_WORKERS"); w != "" {
 		fmt.Sscanf(w, "%d", &maxWorkers)
+	}
+	if len(pkgOrder) == 0 {
+		fatalf("no harness instance selected (VSYM_ONLY=%q)", only)
 	}
 	perPkg := max(1, maxWorkers/len(pkgOrder))
 	type workerT struct {
